@@ -122,12 +122,30 @@ func TestC40(t *testing.T) {
 		m, class := genC40Msg(t)
 		code := rapid.SampledFrom([]int{420, 400, 303, 500, 401, 406, 0, -503}).Draw(t, "code")
 		msg := m.message()
-		e := tgerr.New(code, msg)
-		if e.Code != code || e.Message != msg {
-			t.Fatalf("New(%d, %q): Code=%d Message=%q", code, msg, e.Code, e.Message)
-		}
-		if e.Type != m.wantType() || e.Argument != m.Arg {
-			t.Fatalf("New(%d, %q): Type=%q Argument=%d, want Type=%q Argument=%d", code, msg, e.Type, e.Argument, m.wantType(), m.Arg)
+		// the same message is parsed 1..3 times; in between the caller does with
+		// the *Error it got what callers do with their own values: it edits the
+		// exported fields (a handler marking an error as handled, a test
+		// shortening a wait). Every parse must give the parsed values.
+		parses := rapid.SampledFrom([]int{1, 1, 2, 3}).Draw(t, "parses")
+		var e *tgerr.Error
+		for k := 0; k < parses; k++ {
+			if e != nil {
+				switch rapid.IntRange(0, 2).Draw(t, "callerEdit") {
+				case 0:
+					e.Argument = rapid.IntRange(0, 5000).Draw(t, "newArgument")
+				case 1:
+					e.Type = "HANDLED"
+				default:
+					e.Type, e.Argument, e.Message = "", 0, ""
+				}
+			}
+			e = tgerr.New(code, msg)
+			if e.Code != code || e.Message != msg {
+				t.Fatalf("New(%d, %q) (parse %d of this message): Code=%d Message=%q", code, msg, k+1, e.Code, e.Message)
+			}
+			if e.Type != m.wantType() || e.Argument != m.Arg {
+				t.Fatalf("New(%d, %q) (parse %d of this message, the caller edited the earlier result): Type=%q Argument=%d, want Type=%q Argument=%d", code, msg, k+1, e.Type, e.Argument, m.wantType(), m.Arg)
+			}
 		}
 		if !e.IsType(m.wantType()) || !tgerr.Is(e, m.wantType()) {
 			t.Fatalf("New(%d, %q): IsType/Is(%q) is false", code, msg, m.wantType())
@@ -167,6 +185,9 @@ func TestC40(t *testing.T) {
 		}
 		if wrapped {
 			classes = append(classes, "wrapped")
+		}
+		if parses > 1 {
+			classes = append(classes, "parsed-again-after-caller-edit")
 		}
 		st.Case(msg, nontrivial, msg, classes...)
 	})
